@@ -220,6 +220,15 @@ pub fn driver_sweeps(out: &mut Out, kind: &'static str, da: u8, sa: u8, thorough
                 }
             }
         }
+        // the last word (status / state words live there): every low byte with the high bytes that start a code range
+        for hi in [0x00u8, 0xEE, 0xFF, 0x7F, 0x80, 0xED, 0xEF] {
+            for lo in 0..=255u8 {
+                if lo > 0x20 && lo < 0xF0 && lo % 16 != 0 {
+                    continue;
+                }
+                recv_case(out, kind, da, sa, &frame8(make_id(3, pgn, 0xFF, src), [0x10, 0x27, 0x00, 0x00, 0x00, 0x00, lo, hi]), true);
+            }
+        }
         if pgn == 61444 {
             for nib in 0..16u8 {
                 for hi in [0xF0u8, 0x00] {
